@@ -127,13 +127,12 @@ class MarkerExpression(SingleMarker):
                 # wildcards or versions with a pre/post/dev/epoch segment.
                 for _ in range(2 - dot_num):
                     pkg_version += ".0"
-            return MarkerExpression(
-                name, pkg_spec.operator, pkg_version, _specifier=specifier
-            )
+            # Do not attach `specifier` as the atom's cached specifier: atoms compare
+            # equal on (name, op, value, reversed) only and are lru_cache keys, so an atom
+            # must behave as a function of those fields alone.
+            return MarkerExpression(name, pkg_spec.operator, pkg_version)
         assert isinstance(specifier, GenericSpecifier)
-        return MarkerExpression(
-            name, specifier.op, specifier.value, _specifier=specifier
-        )
+        return MarkerExpression(name, specifier.op, specifier.value)
 
     def _get_specifier(self) -> BaseSpecifier:
         from dep_logic.specifiers import parse_version_specifier
